@@ -1,4 +1,5 @@
-(** The safety invariant of DoneCb/Model.v, for EVERY schedule. *)
+(** The invariant of DoneCb/Model.v (repaired thread.py, with the lock), for
+    EVERY schedule and any number of registering threads. *)
 From NL Require Import DoneCb.Model DoneCb.Safety.
 From Coq Require Import Lia.
 
@@ -6,26 +7,28 @@ From Coq Require Import Lia.
 Record ghost := mkG {
   g_cl : list nat;            (* threads the callback was invoked with (newest first, with repetitions) *)
   g_rg : list nat;            (* threads whose register() returned *)
+  g_rgc : list nat;           (* threads whose register() had returned when close() was called *)
   g_dd : list nat;            (* threads that ended *)
   g_rz : list nat;            (* threads whose callback raised, oldest first *)
   g_cr : list (option exn);   (* results of close() *)
   g_mx : list (option exn)    (* how the monitor thread ended *)
 }.
-Definition g0 : ghost := mkG [] [] [] [] [] [].
+Definition g0 : ghost := mkG [] [] [] [] [] [] [].
 
 Definition ev_ghost (g : ghost) (e : event) : ghost :=
   match e with
-  | EvRegistered t => mkG (g_cl g) (t :: g_rg g) (g_dd g) (g_rz g) (g_cr g) (g_mx g)
-  | EvCb t r => mkG (t :: g_cl g) (g_rg g) (g_dd g) (if r then g_rz g ++ [t] else g_rz g) (g_cr g) (g_mx g)
-  | EvMonExit e => mkG (g_cl g) (g_rg g) (g_dd g) (g_rz g) (g_cr g) (e :: g_mx g)
-  | EvCloseRet e => mkG (g_cl g) (g_rg g) (g_dd g) (g_rz g) (e :: g_cr g) (g_mx g)
+  | EvRegistered t => mkG (g_cl g) (t :: g_rg g) (g_rgc g) (g_dd g) (g_rz g) (g_cr g) (g_mx g)
+  | EvCb t r => mkG (t :: g_cl g) (g_rg g) (g_rgc g) (g_dd g) (if r then g_rz g ++ [t] else g_rz g) (g_cr g) (g_mx g)
+  | EvMonExit e => mkG (g_cl g) (g_rg g) (g_rgc g) (g_dd g) (g_rz g) (g_cr g) (e :: g_mx g)
+  | EvCloseRet e => mkG (g_cl g) (g_rg g) (g_rgc g) (g_dd g) (g_rz g) (e :: g_cr g) (g_mx g)
   end.
 
 Definition evs_of (o : out) : list event := match o with OAcc _ e => e | _ => [] end.
 
 Definition g_step (g : ghost) (l : label) (o : out) : ghost :=
   let g1 := match l, o with
-            | Die t, OOk => mkG (g_cl g) (g_rg g) (t :: g_dd g) (g_rz g) (g_cr g) (g_mx g)
+            | Die t, OOk => mkG (g_cl g) (g_rg g) (g_rgc g) (t :: g_dd g) (g_rz g) (g_cr g) (g_mx g)
+            | CloseCall, OOk => mkG (g_cl g) (g_rg g) (g_rg g) (g_dd g) (g_rz g) (g_cr g) (g_mx g)
             | _, _ => g
             end in
   fold_left ev_ghost (evs_of o) g1.
@@ -55,40 +58,66 @@ Lemma grun_spec raises ls :
 Proof. apply grun_from_spec. Qed.
 
 Definition scanning (p : mpc) : Prop := match p with MIterNext | MIsAlive _ => True | _ => False end.
-Definition cbphase (p : mpc) : Prop :=
-  match p with MCallback | MLoadRebuild | MSetDiff _ | MStore _ => True | _ => False end.
+(** from the creation of `done` to the store *)
+Definition prestore (p : mpc) : Prop :=
+  match p with MIterNext | MIsAlive _ | MLoadRebuild | MSetDiff _ | MStore _ => True | _ => False end.
+(** `for d in done` is pending / running *)
+Definition cbpc (p : mpc) : Prop := match p with MRel1 | MCallback => True | _ => False end.
+(** the monitor holds the lock *)
+Definition mon_locked (p : mpc) : Prop :=
+  match p with
+  | MLoadScan | MGetIter _ | MIterNext | MIsAlive _ | MLoadRebuild | MSetDiff _ | MStore _ | MRel1
+  | MLoadCheck | MTruth _ | MLoadClosed | MRelBreak | MRelLoop | MRelExc => True
+  | _ => False
+  end.
+Definition reg_locked (r : rst) : Prop := match r with RLoad | RAdd _ | RRel => True | _ => False end.
+(** the thread's `add` has been executed *)
+Definition added (r : rst) : Prop := match r with RRel | RIdle | RDead => True | _ => False end.
 
 Record Inv (g : ghost) (s : state) : Prop := {
   i_dead : forall t, regs s t = RDead -> In t (g_dd g) /\ In t (g_rg g);
   i_idle : forall t, regs s t = RIdle -> In t (g_rg g);
+  i_rg : forall t, In t (g_rg g) -> regs s t = RIdle \/ regs s t = RDead;
+  i_rgc : forall t, In t (g_rgc g) -> In t (g_rg g);
   i_done_dead : forall d, In d (m_done s) -> regs s d = RDead;
   i_done_asc : asc (m_done s);
   i_cl_nodup : NoDup (g_cl g);
   i_cl_dead : forall t, In t (g_cl g) -> regs s t = RDead;
-  i_cbs : forall d, In d (m_cbs s) -> In d (m_done s) /\ ~ In d (g_cl g);
+  i_cbs : forall d, In d (m_cbs s) -> regs s d = RDead /\ ~ In d (g_cl g) /\ ~ In d (obj (heap s) (active s));
   i_cbs_asc : asc (m_cbs s);
-  i_scan_done : scanning (m_pc s) -> forall d, In d (m_done s) -> ~ In d (g_cl g);
-  i_active : forall t, In t (obj (heap s) (active s)) -> In t (g_cl g) ->
-             cbphase (m_pc s) /\ In t (m_done s) /\ ~ In t (m_cbs s);
+  i_cbs_nil : ~ cbpc (m_pc s) -> m_cbs s = [];
+  i_scan_done : prestore (m_pc s) -> forall d, In d (m_done s) -> ~ In d (g_cl g);
+  i_active : forall t, In t (obj (heap s) (active s)) -> ~ In t (g_cl g);
+  i_owed : forall t, added (regs s t) -> ~ In t (g_cl g) -> In t (obj (heap s) (active s)) \/ In t (m_cbs s);
   i_todo : scanning (m_pc s) -> forall t, In t (m_todo s) -> In t (obj (heap s) (active s));
   i_isalive : forall t, m_pc s = MIsAlive t -> In t (obj (heap s) (active s));
   i_ref : match m_pc s with MGetIter r | MSetDiff r | MTruth r => r = active s | _ => True end;
   i_bound : active s < length (heap s);
   i_store : forall n, m_pc s = MStore n ->
             active s < n /\ n < length (heap s) /\
-            forall t, In t (obj (heap s) n) -> In t (obj (heap s) (active s)) /\ ~ In t (m_done s);
-  i_radd : forall t r, regs s t = RAdd r -> r <= active s;
+            forall t, In t (obj (heap s) n) <-> In t (obj (heap s) (active s)) /\ ~ In t (m_done s);
+  i_radd : forall t r, regs s t = RAdd r -> r = active s;
+  i_iter : scanning (m_pc s) -> m_itref s = active s /\ m_itused s = length (obj (heap s) (active s));
+  i_empty : m_pc s = MLoadClosed \/ m_pc s = MRelBreak -> obj (heap s) (active s) = [];
+  i_break : m_pc s = MRelBreak -> closed s = true;
+  i_closed : closed s = true -> closer s <> CNone;
+  i_noexc : m_pc s <> MRelExc;
   i_exc : (forall e, m_pc s <> MExited e) -> m_exc s = map ExCb (g_rz g);
-  i_exit : forall e, m_pc s = MExited e -> e = Some ExSetChanged \/ e = hd_error (map ExCb (g_rz g));
+  i_exit : forall e, m_pc s = MExited e ->
+           e = hd_error (map ExCb (g_rz g)) /\ (forall t, In t (g_rgc g) -> In t (g_cl g)) /\ closer s <> CNone;
   i_mx : forall e, In e (g_mx g) -> m_pc s = MExited e;
   i_mx_rev : forall e, m_pc s = MExited e -> In e (g_mx g);
   i_cr : forall e, In e (g_cr g) -> closer s = CDone e;
-  i_cdone : forall e, closer s = CDone e -> m_pc s = MExited e
+  i_cdone : forall e, closer s = CDone e -> m_pc s = MExited e;
+  i_lock_mon : lock s = Some Mon <-> mon_locked (m_pc s);
+  i_lock_reg : forall t, lock s = Some (Reg t) <-> reg_locked (regs s t);
+  i_lock_closer : lock s <> Some Closer
 }.
 
 Lemma Inv_init : Inv g0 init.
 Proof.
-  constructor; simpl; try tauto; try discriminate; try (intros; discriminate); try constructor; auto.
+  constructor; simpl; try tauto; try discriminate; try (intros; discriminate); try constructor; auto;
+    try (intros; intuition discriminate).
 Qed.
 
 Lemma is_alive_false r : is_alive r = false -> r = RDead.
@@ -104,18 +133,26 @@ Proof.
   - rewrite obj_upd_other in H by assumption. tauto.
 Qed.
 
-Ltac inv_tac := intros; simpl in *; subst; try tauto; try discriminate; eauto.
+Lemma g_step_noev g w a : g_step g (Step w) (OAcc a []) = g.
+Proof. reflexivity. Qed.
+
+Lemma set_reg_eq f t v : set_reg f t v t = v.
+Proof. unfold set_reg. rewrite Nat.eqb_refl. reflexivity. Qed.
+Lemma set_reg_neq f t v x : x <> t -> set_reg f t v x = f x.
+Proof. unfold set_reg. intros H. apply Nat.eqb_neq in H. rewrite H. reflexivity. Qed.
+
+(* case analysis on `set_reg f t v x` *)
+Ltac sr x t :=
+  destruct (Nat.eq_dec x t) as [->|?];
+  [rewrite ?set_reg_eq in *|rewrite ?set_reg_neq in * by assumption].
 
 (* closes the fields that a step leaves alone or makes vacuous *)
 Ltac std :=
   simpl; eauto; try tauto; try discriminate;
   try solve [constructor];
   try solve [intros; discriminate];
-  try solve [match goal with
-             | HA : forall t, In t (obj _ _) -> In t (g_cl _) -> _ |- forall t, _ -> _ -> _ =>
-               let t := fresh in let H1 := fresh in let H2 := fresh in let F := fresh in
-               intros t H1 H2; destruct (HA t H1 H2) as (F & _); elim F
-             end];
+  try solve [intros; intuition discriminate];
+  try solve [intros; intuition congruence];
   try solve [intros _; match goal with
              | H : (forall e, _ <> MExited e) -> _ |- _ => apply H; intros; discriminate
              end];
@@ -131,225 +168,130 @@ Ltac std :=
 Section Steps.
 Variable raises : nat -> bool.
 
-Lemma with_pc_simple g s p :
-  Inv g s ->
-  (scanning p -> scanning (m_pc s)) ->
-  (cbphase (m_pc s) -> cbphase p) ->
-  (forall t, p = MIsAlive t -> In t (obj (heap s) (active s))) ->
-  match p with MGetIter r | MSetDiff r | MTruth r => r = active s | _ => True end ->
-  (forall n, p <> MStore n) ->
-  (forall e, p <> MExited e) -> (forall e, m_pc s <> MExited e) ->
-  Inv g (with_pc s p).
+Lemma lock_mon_reg s g t : Inv g s -> mon_locked (m_pc s) -> reg_locked (regs s t) -> False.
 Proof.
-  intros I Hs Hc Ha Hr Hn He He'. destruct I. constructor; simpl; eauto.
-  - intros t H1 H2. destruct (i_active0 t H1 H2) as (? & ? & ?). auto.
-  - intros n E. elim (Hn n E).
-  - intros e E. elim (He e E).
-  - intros e H. specialize (i_mx0 e H). elim (He' e i_mx0).
-  - intros e E. elim (He e E).
-  - intros e H. specialize (i_cdone0 e H). elim (He' e i_cdone0).
+  intros I H1 H2. apply (i_lock_mon _ _ I) in H1. apply (i_lock_reg _ _ I) in H2. congruence.
 Qed.
 
-Lemma g_step_noev g w a : g_step g (Step w) (OAcc a []) = g.
-Proof. reflexivity. Qed.
-
-(** the monitor thread ends *)
-Lemma mon_exit_inv g s a e :
-  Inv g s -> (forall e', m_pc s <> MExited e') ->
-  e = Some ExSetChanged \/ e = hd_error (map ExCb (g_rz g)) ->
-  ~ cbphase (m_pc s) ->
-  Inv (g_step g (Step Mon) (snd (mon_exit s a e []))) (fst (mon_exit s a e [])).
+(** the monitor thread releases the lock and ends *)
+Lemma mon_exit_inv g s e :
+  Inv g s -> m_pc s = MRelBreak -> e = hd_error (m_exc s) ->
+  Inv (g_step g (Step Mon) (snd (mon_exit s LockRelease e))) (fst (mon_exit s LockRelease e)).
 Proof.
-  intros I Hne He Hcb. unfold mon_exit.
-  destruct (closer s) eqn:Ec; simpl; destruct I; constructor; simpl; eauto;
-    try (intros t H1 H2; destruct (i_active0 t H1 H2) as (? & ? & ?); tauto);
-    try (intros; discriminate); try tauto;
-    try (intros e' E; injection E as <-; assumption);
-    try (intros e' [<-|H]; [reflexivity|specialize (i_mx0 e' H); elim (Hne e' i_mx0)]);
-    try (intros e' H; specialize (i_cr0 e' H); congruence);
-    try (intros e' H; specialize (i_cdone0 e' H); elim (Hne e' i_cdone0)).
-  all: try solve [intros e' E; injection E as <-; left; reflexivity].
-  all: try solve [intros e' [<-|H]; [reflexivity|]; specialize (i_cr0 e' H); congruence].
-  all: try solve [intros e' E; injection E as <-; reflexivity].
+  intros I Epc He.
+  assert (Hall : forall t, added (regs s t) -> In t (g_cl g)).
+  { intros t Ha. destruct (in_dec Nat.eq_dec t (g_cl g)) as [H|H]; [exact H|].
+    destruct (i_owed _ _ I t Ha H) as [F|F].
+    - rewrite (i_empty _ _ I) in F by (right; exact Epc). destruct F.
+    - rewrite (i_cbs_nil _ _ I) in F by (rewrite Epc; simpl; tauto). destruct F. }
+  assert (Hrgc : forall t, In t (g_rgc g) -> In t (g_cl g)).
+  { intros t H. apply Hall. destruct (i_rg _ _ I t (i_rgc _ _ I t H)) as [E|E]; rewrite E; exact Logic.I. }
+  assert (Hcl : closer s <> CNone) by (apply (i_closed _ _ I), (i_break _ _ I), Epc).
+  assert (Hexc : m_exc s = map ExCb (g_rz g)) by (apply (i_exc _ _ I); rewrite Epc; discriminate).
+  pose proof (i_lock_reg _ _ I) as Hlr.
+  assert (Hlm : lock s = Some Mon) by (apply (i_lock_mon _ _ I); rewrite Epc; exact Logic.I).
+  unfold mon_exit. destruct (closer s) eqn:Ec; try (elim Hcl; reflexivity);
+    cbn [fst snd]; unfold g_step; simpl; destruct I; rewrite Epc in *; constructor; std.
+  all: try solve [intros ? E; injection E as <-; subst e; rewrite Hexc; auto].
+  all: try solve [intros ? [<-|H]; [reflexivity|]; match goal with HM : forall e, In e (g_mx _) -> _ |- _ => specialize (HM _ H); discriminate end].
+  all: try solve [intros ? E; injection E as <-; left; reflexivity].
+  all: try solve [intros t; split; [discriminate|]; intros H; apply Hlr in H; congruence].
+  all: try solve [intros ? H; match goal with HM : forall e, In e (g_cr _) -> _ |- _ => specialize (HM _ H); congruence end].
+  all: try solve [intros ? [<-|H]; [reflexivity|]; match goal with HM : forall e, In e (g_cr _) -> _ |- _ => specialize (HM _ H); congruence end].
+  all: try solve [intros ? E; injection E as <-; reflexivity].
 Qed.
+
+Ltac go I Epc := cbn [fst snd]; rewrite ?g_step_noev; destruct I; rewrite Epc in *; constructor; std.
 
 Lemma step_mon_inv g s :
   Inv g s -> Inv (g_step g (Step Mon) (snd (step_mon raises s))) (fst (step_mon raises s)).
 Proof.
-  intros I. unfold step_mon. destruct (m_pc s) eqn:Epc.
-  - (* MLoadScan *) cbn [fst snd]; rewrite g_step_noev. apply with_pc_simple; rewrite ?Epc; simpl; auto; try discriminate.
+  intros I. pose proof (lock_mon_reg s g) as Hmr. unfold step_mon. destruct (m_pc s) eqn:Epc.
+  - (* MAcq1 *)
+    destruct (lock s) eqn:El; [exact I|].
+    pose proof (i_lock_reg _ _ I) as Hlr. go I Epc.
+    intros t. split; [discriminate|]. intros H. apply Hlr in H. congruence.
+  - (* MLoadScan *) go I Epc.
   - (* MGetIter *)
-    cbn [fst snd]; rewrite g_step_noev. pose proof (i_ref _ _ I) as Hr. rewrite Epc in Hr. subst r.
-    destruct I. rewrite Epc in *. constructor; std.
+    pose proof (i_ref _ _ I) as Hr. rewrite Epc in Hr. subst r.
+    pose proof (i_cbs_nil _ _ I) as Hn. rewrite Epc in Hn. specialize (Hn (fun x => x)).
+    go I Epc.
+    intros t H1 H2. destruct (i_owed0 t H1 H2) as [H|H]; [left; exact H|]. rewrite Hn in H. destruct H.
   - (* MIterNext *)
-    destruct (length (obj (heap s) (m_itref s)) =? m_itused s).
-    + destruct (m_todo s) as [|t rest] eqn:Etodo.
-      * destruct (m_done s) as [|d0 dr] eqn:Edone.
-        -- cbn [fst snd]; rewrite g_step_noev. apply with_pc_simple; rewrite ?Epc; simpl; auto; try discriminate.
-        -- cbn [fst snd]; rewrite g_step_noev. destruct I. rewrite Epc, ?Edone in *.
-           constructor; simpl; rewrite ?Edone; std.
-      * cbn [fst snd]; rewrite g_step_noev. destruct I. rewrite Epc, ?Etodo in *.
-        constructor; std.
-        -- intros _ t0 H. apply i_todo0; [exact Logic.I|right; exact H].
-        -- intros t0 E. injection E as <-. apply i_todo0; [exact Logic.I|left; reflexivity].
-    + apply mon_exit_inv; rewrite ?Epc; auto; discriminate.
+    destruct (i_iter _ _ I) as (Hit & Hus); [rewrite Epc; exact Logic.I|].
+    rewrite Hit, Hus, Nat.eqb_refl.
+    destruct (m_todo s) as [|t rest] eqn:Etodo.
+    + go I Epc.
+    + pose proof (i_todo _ _ I) as Ht. rewrite Epc, Etodo in Ht. go I Epc.
+      all: try solve [intros _ x Hx; apply Ht; [exact Logic.I|right; exact Hx]].
+      all: try solve [intros x E; injection E as <-; apply Ht; [exact Logic.I|left; reflexivity]].
   - (* MIsAlive *)
     destruct (is_alive (regs s t)) eqn:Ea.
-    + cbn [fst snd]; rewrite g_step_noev. apply with_pc_simple; rewrite ?Epc; simpl; auto; try discriminate.
-    + cbn [fst snd]; rewrite g_step_noev. apply is_alive_false in Ea. destruct I. rewrite Epc in *.
-      assert (Hnc : ~ In t (g_cl g)).
-      { intros H. destruct (i_active0 t (i_isalive0 t eq_refl) H) as (F & _). elim F. }
-      constructor; std.
+    + go I Epc.
+    + apply is_alive_false in Ea.
+      assert (Hnc : ~ In t (g_cl g)) by (apply (i_active _ _ I), (i_isalive _ _ I), Epc).
+      go I Epc.
       * intros d Hd. apply In_ins in Hd. destruct Hd as [->|Hd]; auto.
       * apply asc_ins. assumption.
-      * intros d Hd. destruct (i_cbs0 d Hd). split; [apply In_ins; tauto|assumption].
       * intros _ d Hd. apply In_ins in Hd. destruct Hd as [->|Hd]; auto.
-  - (* MCallback *)
-    destruct (m_cbs s) as [|d rest] eqn:Ecbs.
-    + cbn [fst snd]; rewrite g_step_noev. apply with_pc_simple; rewrite ?Epc; simpl; auto; try discriminate.
-    + destruct I. rewrite Epc, ?Ecbs in *.
-      destruct (i_cbs0 d (or_introl eq_refl)) as (Hdd & Hdc).
-      assert (Hnr : ~ In d rest).
-      { intros H. pose proof (asc_lt _ _ i_cbs_asc0 _ H). lia. }
-      cbn [fst snd]. unfold g_step; simpl.
-      constructor; simpl; try solve [destruct rest; std]; try solve [auto].
-      all: try solve [constructor; assumption].
-      all: try solve [intros t [<-|H]; auto].
-      all: try solve [eapply asc_tail; eassumption].
-      all: try solve [intros d' Hd'; destruct (i_cbs0 d' (or_intror Hd')) as (? & ?); split; [assumption|];
-                      intros [<-|H1]; tauto].
-      all: try solve [intros Hne; rewrite i_exc0 by (intros; discriminate);
-                      destruct (raises d); [rewrite map_app; reflexivity|reflexivity]].
-      intros t H1 [<-|H2].
-      * split; [destruct rest; exact Logic.I|tauto].
-      * destruct (i_active0 t H1 H2) as (_ & ? & ?).
-        split; [destruct rest; exact Logic.I|]. split; [assumption|]. intros H3. apply H0. right. assumption.
-  - (* MLoadRebuild *) cbn [fst snd]; rewrite g_step_noev. apply with_pc_simple; rewrite ?Epc; simpl; auto; try discriminate.
+  - (* MLoadRebuild *) go I Epc.
   - (* MSetDiff *)
-    cbn [fst snd]; rewrite g_step_noev. pose proof (i_ref _ _ I) as Hr. rewrite Epc in Hr. subst r.
-    destruct I. rewrite Epc in *.
-    constructor; simpl; rewrite ?obj_app_old by assumption; std.
+    pose proof (i_ref _ _ I) as Hr. rewrite Epc in Hr. subst r.
+    pose proof (i_bound _ _ I) as Hb.
+    cbn [fst snd]; rewrite ?g_step_noev; destruct I; rewrite Epc in *; constructor; simpl;
+      rewrite ?obj_app_old by assumption; std.
     + rewrite app_length. simpl. lia.
     + intros n E. injection E as <-. rewrite app_length. simpl. split; [assumption|]. split; [lia|].
       intros t. rewrite obj_app_new. apply In_diff.
   - (* MStore *)
-    cbn [fst snd]; rewrite g_step_noev. destruct I. rewrite Epc in *.
-    destruct (i_store0 n eq_refl) as (Hlt & Hlen & Hobj).
-    constructor; std.
-    + intros t H1 H2. destruct (Hobj t H1) as (Ha & Hnd).
-      destruct (i_active0 t Ha H2) as (_ & ? & _). tauto.
-    + intros t r E. specialize (i_radd0 t r E). lia.
-  - (* MLoadCheck *) cbn [fst snd]; rewrite g_step_noev. apply with_pc_simple; rewrite ?Epc; simpl; auto; try discriminate.
+    pose proof (i_cbs_nil _ _ I) as Hn. rewrite Epc in Hn. specialize (Hn (fun x => x)).
+    destruct (i_store _ _ I n Epc) as (Hlt & Hlen & Hobj).
+    go I Epc.
+    + intros d Hd. split; [auto|]. split; [apply i_scan_done0; [exact Logic.I|exact Hd]|].
+      intros H. apply Hobj in H. tauto.
+    + intros t H. apply Hobj in H. apply i_active0. tauto.
+    + intros t H1 H2. destruct (i_owed0 t H1 H2) as [H|H]; [|rewrite Hn in H; destruct H].
+      destruct (in_dec Nat.eq_dec t (m_done s)) as [Hd|Hd]; [right; exact Hd|left; apply Hobj; tauto].
+    + intros t r E. exfalso. apply (Hmr t); [rewrite Epc; exact Logic.I|rewrite E; exact Logic.I].
+  - (* MRel1 *)
+    pose proof (i_lock_reg _ _ I) as Hlr.
+    assert (Hlm : lock s = Some Mon) by (apply (i_lock_mon _ _ I); rewrite Epc; exact Logic.I).
+    destruct (m_cbs s) as [|d rest] eqn:Ecbs; go I Epc.
+    all: try solve [intros t; split; [discriminate|]; intros H; apply Hlr in H; congruence].
+  - (* MCallback *)
+    destruct (m_cbs s) as [|d rest] eqn:Ecbs.
+    + go I Epc.
+    + destruct (i_cbs _ _ I d) as (Hdd & Hdc & Hda); [rewrite Ecbs; left; reflexivity|].
+      assert (Hnr : ~ In d rest).
+      { intros H. pose proof (i_cbs_asc _ _ I) as Ha. rewrite Ecbs in Ha. pose proof (asc_lt _ _ Ha _ H). lia. }
+      cbn [fst snd]. unfold g_step; simpl. destruct I. rewrite Epc, ?Ecbs in *.
+      constructor; simpl; try solve [destruct rest; std]; try solve [auto].
+      all: try solve [constructor; assumption].
+      all: try solve [intros t [<-|H]; auto].
+      all: try solve [eapply asc_tail; eassumption].
+      all: try solve [intros d' Hd'; destruct (i_cbs0 d' (or_intror Hd')) as (? & ? & ?); split; [assumption|];
+                      split; [intros [<-|H2]; tauto|assumption]].
+      all: try solve [intros Hne; rewrite i_exc0 by (intros; discriminate);
+                      destruct (raises d); [rewrite map_app; reflexivity|reflexivity]].
+      all: try solve [intros t H1 [<-|H2]; [tauto|]; apply (i_active0 t H1 H2)].
+      all: try solve [intros t H1 H2; destruct (i_owed0 t H1) as [H|[<-|H]]; [tauto|left; exact H|tauto|right; exact H]].
+      all: try solve [destruct rest; [reflexivity|intros H; elim H; exact Logic.I]].
+  - (* MAcq2 *)
+    destruct (lock s) eqn:El; [exact I|].
+    pose proof (i_lock_reg _ _ I) as Hlr. go I Epc.
+    intros t. split; [discriminate|]. intros H. apply Hlr in H. congruence.
+  - (* MLoadCheck *) go I Epc.
   - (* MTruth *)
-    destruct (obj (heap s) r); cbn [fst snd]; rewrite g_step_noev; apply with_pc_simple; rewrite ?Epc; simpl; auto; try discriminate.
+    pose proof (i_ref _ _ I) as Hr. rewrite Epc in Hr. subst r.
+    destruct (obj (heap s) (active s)) eqn:Eo; go I Epc.
   - (* MLoadClosed *)
-    destruct (closed s).
-    + apply mon_exit_inv; rewrite ?Epc; auto; try discriminate.
-      right. rewrite (i_exc _ _ I); [reflexivity|]. rewrite Epc. discriminate.
-    + cbn [fst snd]; rewrite g_step_noev. apply with_pc_simple; rewrite ?Epc; simpl; auto; try discriminate.
+    destruct (closed s) eqn:Ecl; go I Epc.
+  - (* MRelBreak *) apply mon_exit_inv; auto.
+  - (* MRelLoop *)
+    pose proof (i_lock_reg _ _ I) as Hlr.
+    assert (Hlm : lock s = Some Mon) by (apply (i_lock_mon _ _ I); rewrite Epc; exact Logic.I).
+    go I Epc.
+    all: try solve [intros t; split; [discriminate|]; intros H; apply Hlr in H; congruence].
+  - (* MRelExc *) elim (i_noexc _ _ I Epc).
   - (* MExited *) exact I.
-Qed.
-
-Lemma set_reg_eq f t v : set_reg f t v t = v.
-Proof. unfold set_reg. rewrite Nat.eqb_refl. reflexivity. Qed.
-Lemma set_reg_neq f t v x : x <> t -> set_reg f t v x = f x.
-Proof. unfold set_reg. intros H. apply Nat.eqb_neq in H. rewrite H. reflexivity. Qed.
-
-(* case analysis on `set_reg f t v x` *)
-Ltac sr x t :=
-  destruct (Nat.eq_dec x t) as [->|?];
-  [rewrite ?set_reg_eq in *|rewrite ?set_reg_neq in * by assumption].
-
-Lemma step_reg_inv g s t :
-  Inv g s -> Inv (g_step g (Step (Reg t)) (snd (step_reg s t))) (fst (step_reg s t)).
-Proof.
-  intros I. unfold step_reg. destruct (regs s t) eqn:Er; try exact I.
-  - (* RLoad: LOAD_ATTR _active *)
-    cbn [fst snd]; rewrite g_step_noev. destruct I. constructor; simpl; eauto.
-    + intros x H. sr x t; [discriminate|auto].
-    + intros x H. sr x t; [discriminate|auto].
-    + intros d H. specialize (i_done_dead0 d H). sr d t; [congruence|auto].
-    + intros x H. specialize (i_cl_dead0 x H). sr x t; [congruence|auto].
-    + intros x r' H. sr x t; [injection H as <-; lia|eauto].
-  - (* RAdd r: CALL add *)
-    cbn [fst snd]. unfold g_step; simpl. destruct I.
-    pose proof (i_radd0 t r Er) as Hr.
-    constructor; simpl; rewrite ?length_upd; eauto.
-    + intros x H. sr x t; [discriminate|]. destruct (i_dead0 x H). auto.
-    + intros x H. sr x t; [auto|]. right. auto.
-    + intros d H. specialize (i_done_dead0 d H). sr d t; [congruence|auto].
-    + intros x H. specialize (i_cl_dead0 x H). sr x t; [congruence|auto].
-    + intros x H1 H2. apply In_obj_add in H1. destruct H1 as [H1|(-> & _)]; [auto|].
-      specialize (i_cl_dead0 t H2). congruence.
-    + intros Hs x H. apply obj_add_mono. auto.
-    + intros x H. apply obj_add_mono. auto.
-    + intros n E. destruct (i_store0 n E) as (H1 & H2 & H3). split; [assumption|]. split; [assumption|].
-      intros x Hx. rewrite obj_upd_other in Hx by lia. destruct (H3 x Hx). split; [apply obj_add_mono|]; assumption.
-    + intros x r' H. sr x t; [discriminate|eauto].
-Qed.
-
-Lemma step_closer_inv g s :
-  Inv g s -> Inv (g_step g (Step Closer) (snd (step_closer s))) (fst (step_closer s)).
-Proof.
-  intros I. unfold step_closer. destruct (closer s) eqn:Ec; try exact I.
-  - cbn [fst snd]; rewrite g_step_noev. destruct I. constructor; simpl; eauto.
-    + intros e H. specialize (i_cr0 e H). congruence.
-    + intros; discriminate.
-  - cbn [fst snd]; rewrite g_step_noev. destruct I. constructor; simpl; eauto.
-    + intros e H. specialize (i_cr0 e H). congruence.
-    + intros; discriminate.
-  - cbn [fst snd]; rewrite g_step_noev. destruct I. constructor; simpl; eauto.
-    + intros e H. specialize (i_cr0 e H). congruence.
-    + intros; discriminate.
-  - destruct (m_pc s) eqn:Epc; cbn [fst snd]; unfold g_step; simpl; destruct I; constructor; simpl; eauto;
-      try (intros e' H; specialize (i_cr0 e' H); congruence); try (intros; discriminate).
-    + intros e' [<-|H]; [reflexivity|]. specialize (i_cr0 e' H). congruence.
-    + intros e' E. injection E as <-. assumption.
-Qed.
-
-Lemma step_inv g s l :
-  Inv g s -> Inv (g_step g l (snd (step raises s l))) (fst (step raises s l)).
-Proof.
-  intros I. destruct l as [t|[| |t]|t|]; simpl.
-  - (* Arrive *)
-    destruct (regs s t) eqn:Er; try exact I. destruct (closer s) eqn:Ec; try exact I.
-    cbn [fst snd]. unfold g_step; simpl. destruct I. constructor; simpl; eauto.
-    + intros x H. sr x t; [discriminate|auto].
-    + intros x H. sr x t; [discriminate|auto].
-    + intros d H. specialize (i_done_dead0 d H). sr d t; [congruence|auto].
-    + intros x H. specialize (i_cl_dead0 x H). sr x t; [congruence|auto].
-    + intros x r' H. sr x t; [discriminate|eauto].
-    + intros e H. specialize (i_cr0 e H). congruence.
-    + intros; discriminate.
-  - apply step_mon_inv; assumption.
-  - apply step_closer_inv; assumption.
-  - apply step_reg_inv; assumption.
-  - (* Die *)
-    destruct (regs s t) eqn:Er; try exact I.
-    cbn [fst snd]. unfold g_step; simpl. destruct I. constructor; simpl; eauto.
-    + intros x H. sr x t; [split; [left; reflexivity|auto]|]. destruct (i_dead0 x H). split; [right|]; assumption.
-    + intros x H. sr x t; [discriminate|auto].
-    + intros d H. specialize (i_done_dead0 d H). sr d t; [reflexivity|auto].
-    + intros x H. specialize (i_cl_dead0 x H). sr x t; [reflexivity|auto].
-    + intros x r' H. sr x t; [discriminate|eauto].
-  - (* CloseCall *)
-    destruct (closer s) eqn:Ec; try exact I.
-    destruct (existsb _ _); [exact I|].
-    cbn [fst snd]. unfold g_step; simpl. destruct I. constructor; simpl; eauto.
-    + intros e H. specialize (i_cr0 e H). congruence.
-    + intros; discriminate.
-Qed.
-
-End Steps.
-
-Lemma grun_inv raises ls : forall g s, Inv g s ->
-  Inv (fst (grun_from raises g s ls)) (snd (grun_from raises g s ls)).
-Proof.
-  induction ls as [|l r IH]; intros g s I; simpl; [exact I|].
-  pose proof (step_inv raises g s l I) as I'. destruct (step raises s l) as [s' o]. apply IH. exact I'.
-Qed.
-
-Theorem Inv_run raises ls : Inv (ghost_of (history raises ls)) (run raises ls).
-Proof.
-  pose proof (grun_inv raises ls g0 init Inv_init) as H. rewrite grun_spec in H. exact H.
 Qed.
